@@ -44,7 +44,11 @@ func (a *AttrConditionPlanner) Process(ctx *shared.PlannerContext) (sql.ISelect,
 		return nil, err
 	}
 
-	res := main.AndWhere(sql.Or(where...)).AndHaving(having)
+	res := main.AndHaving(having)
+	if len(where) > 0 {
+		// a selector made of duration terms only has no key/val pre-filter: `and ()` is not SQL
+		res = res.AndWhere(sql.Or(where...))
+	}
 
 	if ctx.RandomFilter.Max != 0 && len(ctx.CachedTraceIds) > 0 {
 		rawCachedTraceIds := make([]sql.SQLObject, len(ctx.CachedTraceIds))
